@@ -1783,6 +1783,15 @@ impl Oracle for SenderOracle {
 					crate::runner::witness("c03-path-failed-seen");
 					self.check_failed_channel(w, payment_hash, path, *short_channel_id)?;
 				},
+				Obs::Event { node, ev: Event::PaymentFailed { payment_hash: Some(h), .. } } if *node == self.sender => {
+					// "a payment none of whose parts was settled is reported PaymentFailed" - not while a part is
+					// still in flight (it may yet be claimed)
+					let in_flight: usize = w.nodes[self.sender].cm.list_channels().iter().map(|c| c.pending_outbound_htlcs.iter().filter(|x| x.payment_hash == *h).count()).sum();
+					if in_flight > 0 {
+						return Err(Failure::new("sender-truthful", format!("PaymentFailed reported while {} HTLC(s) of the payment are still pending in the sender's channels", in_flight)));
+					}
+					crate::runner::witness("c03-payment-failed-with-nothing-in-flight");
+				},
 				Obs::Api { node, what, ok: true, .. } if *node == self.sender && what == "resend-while-pending" => {
 					return Err(Failure::new("sender-truthful", "a second send with the id of a payment still listed as pending was accepted".to_string()));
 				},
